@@ -625,12 +625,13 @@ class ParsedObject:
     def _asdict(self):
         return {k: getattr(self, k) for k in self._fields}
 
-    def _replace(self, **kw):
-        for field in self._fields:
+    def _replace(_self, **kw):
+        # (A field may be called "self".)
+        for field in _self._fields:
             if field not in kw:
-                kw[field] = getattr(self, field)
-        result = self.__class__(**kw)
-        result._metadata.update(self._metadata)
+                kw[field] = getattr(_self, field)
+        result = _self.__class__(**kw)
+        result._metadata.update(_self._metadata)
         return result
 
 
